@@ -1,7 +1,15 @@
 //! kharness: correspondence / oracle driver.  `kharness <Cxx> <quick|thorough> <seed> <out.json>`
 //! or `kharness replay <Cxx> <case.json-as-k=v-lines-file>`.
+mod alloc;
+mod drops;
+#[allow(dead_code)]
+#[path = "/repo/src/cli/src/errors.rs"]
+mod errors;
 mod gen;
 mod imp;
+#[allow(dead_code)]
+#[path = "/repo/src/cli/src/keyring.rs"]
+mod keyring;
 mod model;
 mod props;
 mod report;
@@ -10,10 +18,14 @@ mod util;
 
 use report::*;
 
+#[global_allocator]
+static GLOBAL: alloc::Counting = alloc::Counting;
+
 fn prop_by_id(id: &str) -> Option<Box<dyn Prop>> {
     match id {
         "C01" => Some(Box::new(props::c01::C01)),
         "C19" => Some(Box::new(props::c19::C19)),
+        "C09" => Some(Box::new(props::c09::C09)),
         "C18" => Some(Box::new(props::c18::C18)),
         _ => None,
     }
